@@ -497,7 +497,7 @@ def run_property(ctx):
         ]
         ctx.assumptions += [
             'the Gallina model in coq/theories mirrors /repo/src as validated by the correspondence suites of this run (exhaustive on the finite spaces named in suites[].rule, sampled beyond)',
-            "Rust's derive(PartialEq, Eq, Hash) on BDD is structural; NamedSymbol/usize order is the order of ids",
+            "Rust's derive(PartialEq, Eq, Hash) on BDD is structural; that a NamedSymbol is compared, ordered and hashed by its id alone is exercised by S-text/sym in the properties that run it",
         ] + spec.get('assumptions', [])
         if spec.get('lint') == 'c13':
             lint_c13(ctx)
